@@ -40,6 +40,11 @@ BASES["tags"] = [("parameter", "Main", "a", "1.0"), ("parameter", 'Main", "X', "
                  ("assign", 'Main", "X', "g", "k*x"), ("assign", 'Main", "X', "dx_dt", "a - g"), ("assign", "Main", "dy_dt", "x - y*a")]
 
 
+# a component without states (parameters and intermediates only, e.g. a stimulus block) next to the one that owns the states
+BASES["stateless"] = [("parameter", "A", "p", "2.0"), ("parameter", "S", "q", "3.0"), ("state", "A", "x", "1.0"), ("state", "A", "y", "2.0"),
+                      ("assign", "S", "c", "1"), ("assign", "S", "b", "q*c"), ("assign", "A", "a", "p*x"), ("assign", "A", "dx_dt", "a - x*b"), ("assign", "A", "dy_dt", "b*y")]
+
+
 def tags(comp):
     return frozenset(t.strip().strip('"') for t in comp.split('", "')) if comp else frozenset([""])
 
